@@ -53,7 +53,7 @@ func c07Run(t *testing.T, st *vstat.Stats, p tPlan) *viol {
 	synctest.Test(t, func(t *testing.T) {
 		root := tmpRoot("c07-")
 		defer os.RemoveAll(root)
-		obs = runSignTape(fx, p, root)
+		obs = runSignTape(fx, p, root, false)
 	})
 	if v := c07Judge(obs); v != nil {
 		return v
